@@ -633,18 +633,20 @@ int vnacal_save(vnacal_t *vcp, const char *pathname)
     yaml_emitter_t emitter;
     bool delete_document = false;
     int t_root, t_properties, t_calibrations;
+    char *new_filename;
 
     if ((fp = fopen(pathname, "w")) == NULL) {
 	_vnacal_error(vcp, VNAERR_SYSTEM, "fopen: %s: %s",
-		vcp->vc_filename, strerror(errno));
+		pathname, strerror(errno));
 	return -1;
     }
-    free((void *)vcp->vc_filename);
-    if ((vcp->vc_filename = strdup(pathname)) == NULL) {
+    if ((new_filename = strdup(pathname)) == NULL) {
 	_vnacal_error(vcp, VNAERR_SYSTEM,
 		"strdup: %s", strerror(errno));
 	goto error;
     }
+    free((void *)vcp->vc_filename);
+    vcp->vc_filename = new_filename;
     errno = 0;
     if (!yaml_document_initialize(&document, &version, &tags[0], &tags[0],
 		0, 0)) {
